@@ -187,9 +187,10 @@ pub fn run_session(mut src: Source, supported: Arc<BTreeSet<String>>, properties
             let mut fam = verdict.fault.as_ref().map(|f| fault_family(f)).unwrap_or("?".into());
             // where the model had no definite fault in mind, name the failure by what the system hit
             if fam == "?" || fam.starts_with("unsure") || fam.starts_with("repeated") {
+              let was_vector_source = fam == "unsure-vector-source";
               if let Outcome::Err { panic: Some((m, _)), .. } = &outcome {
                 if m.contains("overflow") || m.contains("divide by zero") { fam = "f4-arith".into(); }
-                else if m.contains("out of bounds") { fam = "f5-index-oob".into(); }
+                else if m.contains("out of bounds") { fam = if was_vector_source { "source-shape-mismatch".into() } else { "f5-index-oob".into() }; }
               }
             }
             let form = match &op { Op::IdxAssign { sub, .. } | Op::OpAssign { sub: Some(sub), .. } => sub.form(), _ => String::new() };
@@ -220,7 +221,22 @@ pub fn run_session(mut src: Source, supported: Arc<BTreeSet<String>>, properties
             }
           };
           let diffs = diff_store(&expected, &observed);
-          if !diffs.is_empty() {
+          // frame-only verdicts: the target's new values were adopted, but only addressed positions may differ from before
+          let mut frame_bad: Option<String> = None;
+          if verdict.frame_only {
+            if let (Some(t), After::Unknown(..)) = (op.target(), &verdict.after) {
+              if let (Some(SV::Mat(k0, r0, c0, d0)), Some((_, _, SV::Mat(k1, r1, c1, d1)))) = (pre.get(t).map(|b| &b.v), observed.iter().find(|(n, _, _)| n == t)) {
+                if k0 != k1 || (r0, c0) != (r1, c1) { frame_bad = Some(format!("shape or kind changed: {}:{}x{} -> {}:{}x{}", k0, r0, c0, k1, r1, c1)); }
+                else { for i in 0..d0.len() { if d0[i] != d1[i] && !verdict.addressed.contains(&i) { frame_bad = Some(format!("element {} (column-major, 1-based) changed from {} to {} but is not addressed", i + 1, d0[i].show(), d1[i].show())); break; } } }
+              }
+            }
+          }
+          if let Some(why) = frame_bad {
+            let form = match &op { Op::IdxAssign { sub, .. } | Op::OpAssign { sub: Some(sub), .. } => sub.form(), _ => String::new() };
+            let last = verdict.combo.rsplit('|').next().unwrap_or("");
+            let srcf = last.split_once(':').map(|(_, b)| b).unwrap_or(last).to_string();
+            found = Some(viol("frame-violated", format!("{}|{}", form, srcf), format!("only the addressed elements of the target change: {}", show_mstore(&pre)), format!("{} ; after: {}", why, show_store(&observed))));
+          } else if !diffs.is_empty() {
             found = Some(classify_ok_diffs(&op, &verdict, &pre, &expected, &observed, &diffs, &mut viol));
           } else if let Some(exp_ret) = &verdict.ret {
             // non-scalar indexing reads: which elements come back is checked, their arrangement is
